@@ -129,6 +129,16 @@ def sym_history(inp, part):
     """Version reports mixed: after each step version, protocol and schema agree; accepted
     report => protocol == oracle(text); rejected => nothing changed."""
     gw, tr = new_gateway(inp, "2.0" if part["known"] else None)
+    # the application may keep one listen() stream open across version reports, or start a new one per message
+    one_stream = inp.bool("one_listen_stream")
+    stream = [gw.listen() if one_stream else None]
+
+    def step():
+        kind, val = listen_step(gw, stream[0])
+        if one_stream and kind == "err":
+            stream[0] = gw.listen()  # an exception ends an async generator: the application starts a new stream
+        return kind, val
+
     cur_version = "2.0" if part["known"] else None
     cur_proto = "2.0" if part["known"] else "1.4"
     for i in range(part["steps"]):
@@ -138,7 +148,7 @@ def sym_history(inp, part):
         ev = (0, 255, 0, 0, 18, text) if via_presentation else (0, 255, 3, 0, 2, text)
         tr.lines.append(M.line(*ev))
         before = len(tr.writes)
-        kind, val = listen_step(gw)
+        kind, val = step()
         want = M.version_to_proto(text)
         if want is None:
             if kind != "err" or type(val).__name__ != "InvalidMessageError":
@@ -159,11 +169,11 @@ def sym_history(inp, part):
             raise Violation("history:version-query", "report %r produced %d writes, expected %d" % (text, nwrites, want_q))
     probe_t = M.INTERNAL_MAX[cur_proto] + 1
     tr.lines.append(M.line(0, 255, 3, 0, probe_t, ""))
-    kind, val = listen_step(gw)
+    kind, val = step()
     if kind != "err" or type(val).__name__ != "UnsupportedMessageError":
         raise Violation("history:rules-in-force", "internal type %d accepted although active protocol should be %s" % (probe_t, cur_proto))
     tr.lines.append(M.line(0, 255, 3, 0, probe_t - 1, ""))
-    kind, val = listen_step(gw)
+    kind, val = step()
     if kind == "err" and type(val).__name__ == "UnsupportedMessageError":
         raise Violation("history:rules-in-force", "internal type %d refused although active protocol should be %s" % (probe_t - 1, cur_proto))
     return ["history-ok", cur_proto]
